@@ -1,7 +1,7 @@
 (* C01 — Parse results equal the grammar's derivations, including left recursion.
    Only statements: each theorem repeats the full statement of a lemma proved elsewhere and is closed by [exact]. *)
 From Coq Require Import String List NArith ZArith Bool.
-From Parsley Require Import Obs Base Grammar Engine Spec Sound Complete Pump.
+From Parsley Require Import Obs Base Grammar Engine Spec Sound Complete Pump ExactSpec Exact.
 Import ListNotations.
 Open Scope N_scope.
 
@@ -70,14 +70,12 @@ Theorem C01_sound_all :
 Proof. exact @Sound.C01_sound_all. Qed.
 Print Assumptions C01_sound_all.
 
-(* PARTIAL with respect to the full property: completeness is proved for the monotone fragment; the full statement also
-   covers Choice, Many, SepBy, SeqTry and SeqFirstOrAll with their first-match / longest-path rules under stratification,
-   which is covered by the correspondence and the executable oracle only (soundness above does cover them).
+(* Completeness for the monotone fragment (the stratified operators are covered by the C01_exact_* theorems below).
    COMPLETENESS INVARIANT (Frost-Hafiz-Callaghan curtailment with context-sensitive cache reuse), monotone fragment
    (terminals, Empty, references, Memoize, Any, Optional, SeqOf; End-free, which for a literal terminal also means that its node's
    token is not "EOF" — seq.go recognises End by token, so terminal.Word("eof") counts as End): every valid derivation that is compatible
    with the empty left-recursion context (not cut by the curtailment bound) is in the result. *)
-Theorem C01_complete_invariant_partial :
+Theorem C01_complete_invariant :
   forall (inp : input) (rules : list pexpr) (site : N -> option pexpr),
   wf_rules rules site ->
   (forall (k : N) (body : pexpr), nth_N rules k = Some body -> mono body = true) ->
@@ -91,11 +89,11 @@ Theorem C01_complete_invariant_partial :
   forall d : dtree,
   valid inp rules root (i_offset inp) d -> compat inp [] (i_offset inp) d -> In (yield d) ns.
 Proof. exact @Complete.complete_top. Qed.
-Print Assumptions C01_complete_invariant_partial.
+Print Assumptions C01_complete_invariant.
 
 (* EVERY REACHABLE END POSITION IS RETURNED: for every valid derivation of the root there is a returned tree with the
    same end — under direct, indirect and hidden left recursion, ambiguity, empty alternatives (pumping argument). *)
-Theorem C01_complete_ends_partial :
+Theorem C01_complete_ends :
   forall (inp : input) (rules : list pexpr) (site : N -> option pexpr),
   wf_rules rules site ->
   (forall (k : N) (body : pexpr), nth_N rules k = Some body -> mono body = true) ->
@@ -109,11 +107,11 @@ Theorem C01_complete_ends_partial :
   forall d : dtree,
   valid inp rules root (i_offset inp) d -> exists n : node, In n ns /\ node_rpos n = dend d.
 Proof. exact @Pump.C01_complete_ends. Qed.
-Print Assumptions C01_complete_ends_partial.
+Print Assumptions C01_complete_ends.
 
 (* EVERY DISTINCT TREE IS RETURNED unless it contains a unit cycle (a Memoize node nested in itself at the same
    position with the same end); grammars with finitely many trees have no such derivations. *)
-Theorem C01_complete_trees_partial :
+Theorem C01_complete_trees :
   forall (inp : input) (rules : list pexpr) (site : N -> option pexpr),
   wf_rules rules site ->
   (forall (k : N) (body : pexpr), nth_N rules k = Some body -> mono body = true) ->
@@ -127,7 +125,7 @@ Theorem C01_complete_trees_partial :
   forall d : dtree,
   valid inp rules root (i_offset inp) d -> nopump (i_offset inp) d -> In (yield d) ns.
 Proof. exact @Pump.C01_complete_trees. Qed.
-Print Assumptions C01_complete_trees_partial.
+Print Assumptions C01_complete_trees.
 
 (* Pure: every valid derivation can be cut down to a valid derivation with the same end that the curtailment bound admits. *)
 Theorem C01_pump_ends :
@@ -147,4 +145,158 @@ Theorem C01_nopump_compat :
   valid inp rules e pos d -> in_file inp pos -> nopump pos d -> compat inp [] pos d.
 Proof. exact @Pump.nopump_compat. Qed.
 Print Assumptions C01_nopump_compat.
+
+(* STRATIFIED GRAMMARS (Choice, Many, SepBy, SeqTry, SeqFirstOrAll anywhere, a level assignment exists - decidable check
+   stratified_b - so that a least-fixpoint meaning exists; End-free, one Memoize site per index): every returned tree is the yield
+   of an EXACT derivation: a valid derivation in which no earlier alternative of a Choice has a match and no sequence-family path
+   can be extended (first-match / longest-path rules), by recursion on the stratum. *)
+Theorem C01_exact_sound :
+  forall (inp : input) (rules : list pexpr) (site : N -> option pexpr) (rl ml : N -> nat),
+  wf_rules rules site ->
+  (forall (k : N) (body : pexpr), nth_N rules k = Some body -> endfree body = true) ->
+  rules_lev rl ml rules ->
+  forall (L : nat) (root : pexpr),
+  lev_ok rl ml L root = true ->
+  wf rules site root ->
+  endfree root = true ->
+  forall (fuel : nat) (ns : list node) (cp : intset) (err : option perr) (c : ctx),
+  run inp rules fuel root = Ok (ns, cp, err, c) ->
+  forall n : node,
+  In n ns ->
+  exists d : dtree,
+    exact inp rules L root (i_offset inp) d /\
+    valid inp rules root (i_offset inp) d /\ yield d = n.
+Proof. exact @Exact.C01_exact_sound. Qed.
+Print Assumptions C01_exact_sound.
+
+(* ... and every end position of an exact derivation is the end of a returned tree (left recursion above, below and around the
+   non-monotone operators). *)
+Theorem C01_exact_complete_ends :
+  forall (inp : input) (rules : list pexpr) (site : N -> option pexpr) (rl ml : N -> nat),
+  wf_rules rules site ->
+  (forall (k : N) (body : pexpr), nth_N rules k = Some body -> endfree body = true) ->
+  rules_lev rl ml rules ->
+  forall (L : nat) (root : pexpr),
+  lev_ok rl ml L root = true ->
+  wf rules site root ->
+  endfree root = true ->
+  forall (fuel : nat) (ns : list node) (cp : intset) (err : option perr) (c : ctx),
+  run inp rules fuel root = Ok (ns, cp, err, c) ->
+  forall d : dtree,
+  exact inp rules L root (i_offset inp) d -> exists n : node, In n ns /\ node_rpos n = dend d.
+Proof. exact @Exact.C01_exact_complete_ends. Qed.
+Print Assumptions C01_exact_complete_ends.
+
+(* ... and every exact derivation without a unit cycle is returned. *)
+Theorem C01_exact_complete_trees :
+  forall (inp : input) (rules : list pexpr) (site : N -> option pexpr) (rl ml : N -> nat),
+  wf_rules rules site ->
+  (forall (k : N) (body : pexpr), nth_N rules k = Some body -> endfree body = true) ->
+  rules_lev rl ml rules ->
+  forall (L : nat) (root : pexpr),
+  lev_ok rl ml L root = true ->
+  wf rules site root ->
+  endfree root = true ->
+  forall (fuel : nat) (ns : list node) (cp : intset) (err : option perr) (c : ctx),
+  run inp rules fuel root = Ok (ns, cp, err, c) ->
+  forall d : dtree,
+  exact inp rules L root (i_offset inp) d -> nopump (i_offset inp) d -> In (yield d) ns.
+Proof. exact @Exact.C01_exact_complete_trees. Qed.
+Print Assumptions C01_exact_complete_trees.
+
+(* ... and nothing is returned iff no exact derivation exists. *)
+Theorem C01_exact_empty :
+  forall (inp : input) (rules : list pexpr) (site : N -> option pexpr) (rl ml : N -> nat),
+  wf_rules rules site ->
+  (forall (k : N) (body : pexpr), nth_N rules k = Some body -> endfree body = true) ->
+  rules_lev rl ml rules ->
+  forall (L : nat) (root : pexpr),
+  lev_ok rl ml L root = true ->
+  wf rules site root ->
+  endfree root = true ->
+  forall (fuel : nat) (ns : list node) (cp : intset) (err : option perr) (c : ctx),
+  run inp rules fuel root = Ok (ns, cp, err, c) ->
+  ns = [] <-> ~ (exists d : dtree, exact inp rules L root (i_offset inp) d).
+Proof. exact @Exact.C01_exact_empty. Qed.
+Print Assumptions C01_exact_empty.
+
+(* One level, any context without counters for the operands' indexes: Choice returns exactly the result of the first alternative that has a derivation. *)
+Theorem C01_choice_exact :
+  forall (inp : input) (rules : list pexpr) (site : N -> option pexpr),
+  wf_rules rules site ->
+  (forall (k : N) (body : pexpr), nth_N rules k = Some body -> mono body = true) ->
+  (forall (k : N) (body : pexpr), nth_N rules k = Some body -> endfree body = true) ->
+  forall R M : N -> bool,
+  closed_rules R M rules ->
+  forall (f : nat) (ps : list pexpr) (c : ctx) (stk : stack) (l : intmap) 
+    (pos : N) (ns : list node) (cp : intset) (err : option perr) (c' : ctx),
+  (forall e : pexpr, In e ps -> opd rules site R M e) ->
+  cinv inp rules site c ->
+  in_file inp pos ->
+  zero_on M l ->
+  parse inp rules (S f) (PChoice ps) c stk l pos = Ok (ns, cp, err, c') ->
+  cinv inp rules site c' /\
+  (ns = [] /\ (forall e : pexpr, In e ps -> ~ (exists d : dtree, valid inp rules e pos d)) \/
+   (exists (i : nat) (e : pexpr),
+      nth_error ps i = Some e /\
+      first_match inp rules ps pos i /\
+      ns <> [] /\
+      (exists (c0 : ctx) (cp0 : intset) (err0 : option perr) (c1 : ctx),
+         cinv inp rules site c0 /\
+         parse inp rules f e (reg_call c0) stk l pos = Ok (ns, cp0, err0, c1)) /\
+      (forall n : node, In n ns -> exists d : dtree, valid inp rules e pos d /\ yield d = n) /\
+      (forall d : dtree, valid inp rules e pos d -> compat inp l pos d -> In (yield d) ns) /\
+      (forall d : dtree,
+       valid inp rules e pos d -> exists n : node, In n ns /\ node_rpos n = dend d))).
+Proof. exact @Exact.C01_choice_exact. Qed.
+Print Assumptions C01_choice_exact.
+
+(* One level: SeqTry / SeqFirstOrAll / Many / SepBy return exactly the maximal paths whose length passes the length check. *)
+Theorem C01_seq_maximal_exact :
+  forall (inp : input) (rules : list pexpr) (site : N -> option pexpr),
+  wf_rules rules site ->
+  (forall (k : N) (body : pexpr), nth_N rules k = Some body -> mono body = true) ->
+  (forall (k : N) (body : pexpr), nth_N rules k = Some body -> endfree body = true) ->
+  forall R M : N -> bool,
+  closed_rules R M rules ->
+  forall (f : nat) (k : seqkind) (ip : interp) (single : bool) (ps : list pexpr) 
+    (c : ctx) (stk : stack) (l : intmap) (pos : N) (ns : list node) 
+    (cp : intset) (err : option perr) (c' : ctx),
+  (forall e : pexpr, In e ps -> opd rules site R M e) ->
+  cinv inp rules site c ->
+  in_file inp pos ->
+  zero_on M l ->
+  parse inp rules (S f) (PSeq k ip single None ps) c stk l pos = Ok (ns, cp, err, c') ->
+  let q := {| q_kind := k; q_ip := ip; q_single := single; q_ps := ps |} in
+  cinv inp rules site c' /\
+  (forall n : node,
+   In n ns ->
+   exists ds : list dtree,
+     valid inp rules (PSeq k ip single None ps) pos (DSeq q pos ds) /\
+     seq_max inp rules k ps pos ds /\ yield (DSeq q pos ds) = n) /\
+  (forall ds : list dtree,
+   valid inp rules (PSeq k ip single None ps) pos (DSeq q pos ds) ->
+   seq_max inp rules k ps pos ds ->
+   (compat inp l pos (DSeq q pos ds) -> In (yield (DSeq q pos ds)) ns) /\
+   (exists n : node, In n ns /\ node_rpos n = dend (DSeq q pos ds))).
+Proof. exact @Exact.C01_seq_maximal_exact. Qed.
+Print Assumptions C01_seq_maximal_exact.
+
+(* The decidable stratification check is sound. *)
+Theorem C01_stratified_check_sound :
+  forall (rl ml : N -> nat) (rules : list pexpr),
+  stratified_b rl ml rules = true -> rules_lev rl ml rules.
+Proof. exact @ExactSpec.stratified_b_sound. Qed.
+Print Assumptions C01_stratified_check_sound.
+
+(* Necessity of the proviso (also true of the real code): P = Memoize(Choice(SeqOf(P, b), a)) has no level assignment, and first match fails for it. *)
+Theorem C01_unstratified_choice_refuted :
+  wf_rules v_rules v_site /\
+  frag v_body = true /\
+  (forall rl ml : N -> nat, ~ rules_lev rl ml v_rules) /\
+  (exists (cp : intset) (err : option perr) (c : ctx),
+     run (mk_input [97; 98; 98] 1) v_rules 100 (PRef 0) = Ok ([u_ab], cp, err, c)) /\
+  valid (mk_input [97; 98; 98] 1) v_rules (PRef 0) 1 v_d2 /\ dend v_d2 = 4.
+Proof. exact @Exact.unstratified_choice_left_recursion. Qed.
+Print Assumptions C01_unstratified_choice_refuted.
 
